@@ -190,6 +190,11 @@ Sem(c) ==
     [] c = "exec 3>&-"           -> [op |-> "close",   fd |-> "3"]
     [] c = "exec 4>&3"           -> [op |-> "dup",     fd |-> "4", src |-> "3"]
     [] c = "exec 4>&-"           -> [op |-> "close",   fd |-> "4"]
+    \* standard input closed: the descriptors a later pipe() / open() returns start at 0, so the
+    \* shell's own plumbing (pipes of command substitutions and pipelines, saved copies) meets
+    \* descriptor numbers it usually never sees; whatever it does, the parent's table afterwards
+    \* is the parent's table before (descriptor 0 stays closed)
+    [] c = "exec 0<&-"           -> [op |-> "close",   fd |-> "0"]
 
 AllCmds ==
   {"a=1", "a=2", "unset a", "unset b", "export a", "export b=3", "readonly b",
@@ -206,7 +211,7 @@ AllCmds ==
    "set -o pipefail", "set +o pipefail", "set -u", "set +u", "set -v", "set +v", "set -x", "set +x",
    "set -h", "set +h", "set -o ignoreeof", "set +o ignoreeof",
    ">>/tmp/r$((a=1))", ">>/tmp/r${b=3}",
-   "exec 3>>/tmp/f3", "exec 4</tmp/in", "exec 3>&-", "exec 4>&3", "exec 4>&-"}
+   "exec 3>>/tmp/f3", "exec 4</tmp/in", "exec 3>&-", "exec 4>&3", "exec 4>&-", "exec 0<&-"}
 
 (* one representative per mutator class of the property's list *)
 CoreCmds ==
@@ -214,7 +219,7 @@ CoreCmds ==
    "alias al=one", "unalias -a", "set -o noglob", "shift", "set -- r",
    "cd /tmp", "umask 027", "trap 'probe t' INT", "trap '' TERM", "trap 'probe e' EXIT",
    "trap 'probe c' CHLD", "status 0 & until wait; do :; done", ">>/tmp/r$((a=1))", ">>/tmp/r${b=3}",
-   "exec 3>>/tmp/f3", "exec 3>&-", "exec 4>&3"}
+   "exec 3>>/tmp/f3", "exec 3>&-", "exec 4>&3", "exec 0<&-"}
 
 (* every option `set -o` lists that a script can switch on without a terminal *)
 OptOnCmds ==
@@ -281,7 +286,11 @@ En(c, S, role) ==
     [] s.op = "readonly" -> S["opt:allexport"] # "on"
     [] s.op = "unalias" -> S["alias:" \o s.n] # "-"
     [] s.op = "shift"   -> S["pos:#"] # "0"
-    [] s.op = "dup"     -> S["fd:" \o s.src] # "-"     \* descriptor 3 is only ever opened for output
+    [] s.op = "dup"     -> S["fd:" \o s.src] # "-"
+    \* (an interactive shell reads its commands from standard input: closing it ends the session)
+    \* (and only the parent does it: a pipeline member that closes its own standard input would
+    \*  only lose the data the scenario pushes through the pipe)
+    [] s.op = "close"   -> s.fd # "0" \/ (role = "parent" /\ S["opt:interactive"] # "on")     \* descriptor 3 is only ever opened for output
     [] s.op = "trap"    -> /\ ~(role = "async" /\ s.c \in {"INT", "QUIT"})
                            \* the interactive shell's own handling of these is not modelled
                            /\ ~(role = "parent" /\ S["opt:interactive"] = "on" /\ s.c \in {"INT", "QUIT", "TERM"})
